@@ -256,7 +256,7 @@ def tlc(module, cfg=None, workers=8, timeout=600, simulate=None, depth=None, env
     meta = os.path.join(work or WORKROOT, 'tlc-%s-%d' % (name or cfg, os.getpid()))
     shutil.rmtree(meta, ignore_errors=True)
     os.makedirs(meta)
-    jopts = ['-XX:+UseParallelGC', '-Xmx' + heap, '-Xss1g' if deque else '-Xss64m']
+    jopts = ['-XX:+UseParallelGC', '-Xmx' + heap, '-Xss1g' if deque else '-Xss64m', '-Djava.io.tmpdir=' + meta]
     if deque:
         jopts.append('-Dtlc2.tool.queue.IStateQueue=StateDeque')
     cmd = ['timeout', '-k', '15', str(timeout), 'java'] + jopts + ['-cp', TLA_JAR, 'tlc2.TLC', '-workers', str(workers),
